@@ -26,7 +26,9 @@ import traceback
 from typing import Any, Callable, Iterable
 
 VERIF = os.path.dirname(os.path.dirname(os.path.dirname(os.path.abspath(__file__))))
-REPO = "/repo"
+REPO = os.environ.get("VERIF_REPO", "/repo")
+# VERIF_OUT: development aid (mutant runs write their evidence/replays elsewhere); registered commands never set it.
+OUT = os.environ.get("VERIF_OUT", VERIF)
 
 
 @dataclasses.dataclass
@@ -261,6 +263,7 @@ def run_property(mod, tier: str, seed: int) -> int:
         budget_exhausted |= r["budget_exhausted"]
 
     # ---- triage of generated violations -------------------------------------------------------
+    shrink_total_end = time.monotonic() + float(cfg.get("shrink_total_s", 60 if tier == "quick" else 300))
     for sig in sorted(viols):
         entry = known_status(known, pid, sig)
         if entry and entry["status"] == "known":
@@ -277,13 +280,15 @@ def run_property(mod, tier: str, seed: int) -> int:
         again = [v for v in mod.check_case(case) if v.sig == sig]
         reproducible = bool(again)
         if reproducible:
-            shrink_budget = float(cfg.get("shrink_s", 20 if tier == "quick" else 90))
+            shrink_budget = min(float(cfg.get("shrink_s", 20 if tier == "quick" else 90)),
+                                max(0.0, shrink_total_end - time.monotonic()))
             case = shrinker.minimize(case, lambda c: any(v.sig == sig for v in mod.check_case(c)),
                                      shrink_budget, hints=getattr(mod, "shrink_hints", None))
             again = [v for v in mod.check_case(case) if v.sig == sig]
             msg = again[0].msg if again else msg
-        os.makedirs(replay_dir, exist_ok=True)
-        path = os.path.join(replay_dir, "%s-%s.json" % (slug(sig), case_hash(case)[:8]))
+        out_replay_dir = os.path.join(OUT, "replays", pid)
+        os.makedirs(out_replay_dir, exist_ok=True)
+        path = os.path.join(out_replay_dir, "%s-%s.json" % (slug(sig), case_hash(case)[:8]))
         with open(path, "w") as f:
             json.dump({"property": pid, "signature": sig, "message": msg, "reproducible": reproducible,
                        "seed": seed, "tier": tier, "case": case}, f, indent=1, sort_keys=True, default=str)
@@ -323,8 +328,8 @@ def run_property(mod, tier: str, seed: int) -> int:
         "wall_s": round(wall, 2),
         "violations": len(new_violation_sigs),
     }
-    os.makedirs(os.path.join(VERIF, "evidence"), exist_ok=True)
-    with open(os.path.join(VERIF, "evidence", pid + ".json"), "w") as f:
+    os.makedirs(os.path.join(OUT, "evidence"), exist_ok=True)
+    with open(os.path.join(OUT, "evidence", pid + ".json"), "w") as f:
         json.dump(ev, f, indent=1, default=str)
         f.write("\n")
     for l in out_lines:
